@@ -362,16 +362,20 @@ Register(f) ==
   /\ p > 0 /\ f \in 1..NFiles /\ f \notin Reg
   /\ order' = Append(order, f)
   /\ LET rl  == RegList(f)
-         gt  == GoTypes(f)
-         new == {<<Cls(rl[k][2]), gt[k]>> : k \in DOMAIN rl}
-         win(c) == rl[MaxOf({k \in DOMAIN rl : <<Cls(rl[k][2]), gt[k]>> = c})]
-     IN  /\ b_d2go' = b_d2go \cup {<<rl[k], gt[k]>> : k \in DOMAIN rl}
-         /\ b_go2d' = {x \in b_go2d : <<x[1], x[2]>> \notin new} \cup {<<c[1], c[2], win(c)>> : c \in new}
-  /\ b_inc' = b_inc \cup {<<f, P[f].incs[k].alias, P[f].incs[MaxOf(IncsWith(P, f, P[f].incs[k].alias))].file>>
-                            : k \in DOMAIN P[f].incs}
+         tl  == TplList(f)
+         n   == Len(rl)
+         gt  == [k \in 1..n |-> GTy(P, tl[k])]            \* the go_types slice
+         key == [k \in 1..n |-> <<Cls(rl[k][2]), gt[k]>>]  \* table and Go type the k-th descriptor is filed under
+         last(k) == \A j \in (k + 1)..n : key[j] # key[k]
+     IN  /\ b_d2go' = b_d2go \cup {<<rl[k], gt[k]>> : k \in 1..n}
+         /\ b_go2d' = {x \in b_go2d : \A k \in 1..n : key[k] # <<x[1], x[2]>>}
+                         \cup {<<key[k][1], key[k][2], rl[k]>> : k \in {j \in 1..n : last(j)}}
+  /\ LET inc == P[f].incs
+         lastA(k) == \A j \in (k + 1)..Len(inc) : inc[j].alias # inc[k].alias
+     IN  b_inc' = b_inc \cup {<<f, inc[k].alias, inc[k].file>> : k \in {j \in DOMAIN inc : lastA(j)}}
   /\ UNCHANGED p
 
-Next == (\E k \in 1..Len(Progs) : Pick(k)) \/ (\E f \in 1..4 : Register(f))
+Next == (p = 0 /\ \E k \in 1..Len(Progs) : Pick(k)) \/ (p > 0 /\ \E f \in 1..NFiles : Register(f))
 Spec == Init /\ [][Next]_vars
 
 (* layer B's answer to fd(f).Get<Kind>Descriptor("pre.name") *)
@@ -413,11 +417,6 @@ AliasReach ==
               /\ Get(P, Reg, f, kind, a, Defs(P[g], kind)[i].name)
                     = IF g \in Reg THEN Local(P, g, kind, Defs(P[g], kind)[i].name) ELSE Nil
               /\ BGet(f, kind, a, Defs(P[g], kind)[i].name) = Get(P, Reg, f, kind, a, Defs(P[g], kind)[i].name)
-(* with clashing aliases B and A part: the queries on which they differ are candidates for the real code *)
-BDiffers ==
-  {<<f, kind, P[f].incs[k].alias, Defs(P[P[f].incs[k].file], kind)[i].name>> :
-      f \in Reg, k \in 1..4, kind \in Kinds, i \in 1..8} \cap {}
-
 (* encoding a file descriptor and decoding it again is the identity *)
 RoundTrip ==
   (p > 0 /\ order = <<>>) =>
